@@ -54,13 +54,17 @@ def splice(src,contracts):
             for ordn in sorted(loops,reverse=True):
                 i=idx[int(ordn)]
                 body=body[:i]+'loop\n'+loops[ordn]+'\n{'+body[i+len('loop {'):]
-        for anchor,text,where in c.get('proof',[]):
-            i=body.index(anchor)
+        for ent in c.get('proof',[]):
+            anchor,text,where=ent[0],ent[1],ent[2]; occ=ent[3] if len(ent)>3 else 0
+            i=-1
+            for _ in range(occ+1): i=body.index(anchor,i+1)
             if where=='before': body=body[:i]+text+'\n'+body[i:]
             else: body=body[:i+len(anchor)]+'\n'+text+body[i+len(anchor):]
         for old,new in c.get('rewrite',[]):
             assert body.count(old)==1,(key,old,body.count(old))
             body=body.replace(old,new)
+        for old,new in c.get('sig',[]):
+            seg=src[s0:pc+1]; assert seg.count(old)==1,(key,old); src=src[:s0]+seg.replace(old,new)+src[pc+1:]; d=len(new)-len(old); pc+=d; bo+=d; bc+=d
         ret=src[pc+1:bo]
         m=re.match(r'\s*->\s*(.*?)\s*$',ret,flags=re.S)
         if m: newret=' -> (r: '+m.group(1)+')\n'
